@@ -23,7 +23,9 @@ VARIABLES
   pend,     \* [Threads -> call record]: idle / invoked / linearized
   mode,     \* "closed" | "open" | "image" (an image of the directory is being examined)
   back,     \* mode to return to after an image has been examined
-  cfg,      \* run configuration: [syncw, strict, bg]
+  cfg,      \* run configuration: [syncw, strict, bg, dur]; dur = FALSE switches the durability
+            \* bookkeeping off (histories without power loss: linearization orders of commuting
+            \* operations then lead to the same state and the search stays small)
   seq,      \* linearization counter of mutators
   ver,      \* [key -> sequence of [s, val]] versions of a key in linearization order
   acked,    \* [key -> seq of the newest ACKNOWLEDGED (returned) mutator of the key]
@@ -103,9 +105,9 @@ Touch(sc, k) == [s \in DOMAIN sc |->
                    ELSE sc[s]]
 
 Inv(t, call) ==
-  /\ mode = "open"
+  /\ mode = "open" \/ (mode = "closed" /\ closing)     \* calls on a handle that has been closed (C10)
   /\ pend[t].st = "idle"
-  /\ pend' = [pend EXCEPT ![t] = [st |-> "inv"] @@ call]
+  /\ pend' = [pend EXCEPT ![t] = [st |-> "inv", snap |-> IF cfg.dur /\ call.op = "sync" THEN acked ELSE <<>>] @@ call]
   /\ scans' = IF Mutator(call.op) THEN Touch(scans, call.k) ELSE scans
   /\ everPut' = IF call.op = "put" THEN everPut \cup {<<call.k, call.v>>} ELSE everPut
   /\ closing' = (closing \/ call.op = "close")
@@ -131,15 +133,16 @@ Lin(t) ==
      /\ kv' = CASE p.op = "put" -> PutF(kv, p.k, p.v)
                 [] p.op = "del" -> DelF(kv, p.k)
                 [] OTHER        -> kv
-     /\ seq' = IF Mutator(p.op) THEN seq + 1 ELSE seq
-     /\ ver' = IF Mutator(p.op) THEN AddVer(p.k, seq + 1, After(p)) ELSE ver
-     /\ pend' = [pend EXCEPT ![t] = [st |-> "lin", res |-> Result(p), s |-> seq + 1, snap |-> acked] @@ p]
+     /\ seq' = IF Mutator(p.op) /\ cfg.dur THEN seq + 1 ELSE seq
+     /\ ver' = IF Mutator(p.op) /\ cfg.dur THEN AddVer(p.k, seq + 1, After(p)) ELSE ver
+     /\ pend' = [pend EXCEPT ![t] = [st |-> "lin", res |-> Result(p), s |-> IF cfg.dur THEN seq + 1 ELSE 0] @@ p]
      /\ closedLin' = (p.op = "close")
   /\ UNCHANGED <<mode, back, cfg, acked, floor, closing, img, scans, everPut, bk, held>>
 
 \* Note on `snap': for Sync the set of effects that must be durable at its return is what
-\* had been ACKNOWLEDGED when Sync took effect (the weakest reading of "once Sync has
-\* returned the effects acknowledged up to that point survive").
+\* had been ACKNOWLEDGED (returned) when Sync was CALLED - the weakest reading of "once Sync has
+\* returned the effects acknowledged up to that point survive", and independent of where the
+\* linearization point of Sync is placed.
 
 \* the durable floor after call p has returned successfully
 FloorAfter(p) ==
@@ -160,15 +163,15 @@ Matches(p, r) ==
     [] OTHER -> TRUE
 
 RetOk(t, r) ==
-  /\ mode = "open"
+  /\ mode \in {"open", "closed"}      \* "closed": the call overlapped a Close that has returned already
   /\ pend[t].st = "lin"
   /\ r.err = ""
   /\ Matches(pend[t], r)
   /\ LET p == pend[t] IN
-     /\ acked' = IF Mutator(p.op)
+     /\ acked' = IF Mutator(p.op) /\ cfg.dur
                  THEN [k \in (DOMAIN acked) \cup {p.k} |-> IF k = p.k THEN MaxN(Get0(acked, k), p.s) ELSE acked[k]]
                  ELSE acked
-     /\ floor' = FloorAfter(p)
+     /\ floor' = IF cfg.dur THEN FloorAfter(p) ELSE floor
      /\ bk' = IF p.op = "backup" THEN [d \in (DOMAIN bk) \cup {p.dir} |-> IF d = p.dir THEN p.res ELSE bk[d]] ELSE bk
      /\ mode' = IF p.op = "close" THEN "closed" ELSE mode
   /\ pend' = [pend EXCEPT ![t] = Idle]
@@ -185,10 +188,24 @@ ErrorAllowed(t, r) ==
   \/ ~cfg.strict /\ p.op \in {"sync", "compact", "backup", "close"}             \* noted, judged by C15's runs
 
 RetErr(t, r) ==
-  /\ mode = "open"
+  /\ mode \in {"open", "closed"}
   /\ pend[t].st \in {"inv", "lin"}
   /\ r.err # ""
   /\ ErrorAllowed(t, r)
+  /\ pend' = [pend EXCEPT ![t] = Idle]
+  /\ UNCHANGED <<kv, mode, back, cfg, seq, ver, acked, floor, closing, closedLin, img, scans, everPut, bk, held>>
+
+\* A call that overlaps or follows Close and returns without error.  C10 constrains only its
+\* effect on the contents: a read has none and its result is not judged (C07 does not cover Close);
+\* a write either took effect before the Close did (RetOk) or must have had no effect - which
+\* the clean reopen at the end of the history checks (contents = kv).
+RetRacingRead(t, r) ==
+  /\ mode \in {"open", "closed"}
+  /\ closing
+  /\ pend[t].st \in {"inv", "lin"}
+  /\ pend[t].op # "close"
+  /\ Mutator(pend[t].op) => (pend[t].st = "inv" /\ mode = "closed")   \* it returned after Close did: it lost the race
+  /\ r.err = ""
   /\ pend' = [pend EXCEPT ![t] = Idle]
   /\ UNCHANGED <<kv, mode, back, cfg, seq, ver, acked, floor, closing, closedLin, img, scans, everPut, bk, held>>
 
@@ -197,7 +214,7 @@ RetErr(t, r) ==
 NoPendingMutator(k) == \A t \in Threads : ~(pend[t].st # "idle" /\ Mutator(pend[t].op) /\ pend[t].k = k)
 
 ScanStart(s) ==
-  /\ mode = "open"
+  /\ mode = "open" \/ (mode = "closed" /\ closing)
   /\ s \notin DOMAIN scans
   /\ LET unt == [k \in {x \in DOMAIN kv : NoPendingMutator(x)} |-> kv[k]]
          dirty == \E t \in Threads : pend[t].st # "idle" /\ Mutator(pend[t].op)
@@ -208,7 +225,7 @@ ScanStart(s) ==
 
 \* Next returned a pair: it must have been put at some time (before this return)
 ScanRet(t, r) ==
-  /\ mode = "open"
+  /\ mode \in {"open", "closed"}
   /\ pend[t].st = "inv" /\ pend[t].op = "next"
   /\ r.err = "" /\ ~r.done
   /\ LET s == pend[t].scan IN
@@ -220,7 +237,7 @@ ScanRet(t, r) ==
 
 \* Next reported the end: complete for untouched keys, exact if nobody wrote during the scan
 ScanDone(t, r) ==
-  /\ mode = "open"
+  /\ mode \in {"open", "closed"}
   /\ pend[t].st = "inv" /\ pend[t].op = "next"
   /\ r.err = "" /\ r.done
   /\ LET s == pend[t].scan IN
@@ -310,7 +327,7 @@ OpenClean(r) ==
 ReadAll(r) ==
   /\ mode = "open"
   /\ \A t \in Threads : IF pend[t].st = "idle" THEN TRUE
-                                              ELSE pend[t].op \in {"compact", "backup", "sync"}   \* no logical effect (C05)
+                                              ELSE ~Mutator(pend[t].op) /\ pend[t].op # "close"   \* nobody is writing
   /\ Observed(r, r.kv)
   /\ r.kv = kv
   /\ UNCHANGED absvars
